@@ -53,4 +53,105 @@ theorem userIdChar_eq (b : Nat) : userIdChar b = userIdCharOk b := by
     Bool.and_eq_true, decide_eq_true_eq, beq_iff_eq]
   simp [or_assoc]
 
+/-! ### Accepted ⇒ required structure, opaque identifier types -/
+
+theorem asciiIn_of_allUniAlnumOr {x : Ext} {extra set : Nat → Bool} {s : Str}
+    (hset : ∀ b, (isAlnum b || extra b) = true → set b = true)
+    (h : allUniAlnumOr x extra s = true) : asciiIn set s = true := by
+  simp only [allUniAlnumOr, Bool.and_eq_true, List.all_eq_true] at h
+  simp only [asciiIn, List.all_eq_true]
+  intro b hb
+  have := h.1 b hb
+  simp only [Bool.or_eq_true, decide_eq_true_eq] at this ⊢
+  rcases this with (h1 | h1) | h1
+  · exact .inl h1
+  · exact .inr (hset b (by simp [h1]))
+  · exact .inr (hset b (by simp [h1]))
+
+theorem struct_signingKeyVersion {x : Ext} {s : Str}
+    (h : serverSigningKeyVersionValidate x s = .ok ()) :
+    (!s.isEmpty && asciiIn keyVersionChar s) = true := by
+  unfold serverSigningKeyVersionValidate at h
+  by_cases he : s = []
+  · simp [he] at h
+  · by_cases ha : allUniAlnumOr x (fun b => b == 95) s = true
+    · have := asciiIn_of_allUniAlnumOr (set := keyVersionChar)
+        (fun b hb => by simpa [keyVersionChar, alnum_eq] using hb) ha
+      cases s <;> simp_all
+    · simp [he, ha] at h
+
+theorem struct_base64PublicKey {x : Ext} {s : Str} (h : base64PublicKeyValidate x s = .ok ()) :
+    (!s.isEmpty && asciiIn base64PadChar s) = true := by
+  unfold base64PublicKeyValidate at h
+  by_cases he : s = []
+  · simp [he] at h
+  · by_cases ha : allUniAlnumOr x (fun b => b == 43 || b == 47 || b == 61) s = true
+    · have := asciiIn_of_allUniAlnumOr (set := base64PadChar)
+        (fun b hb => by
+          simp only [base64PadChar, alnum_eq, oneOf, bs, Bool.or_eq_true] at hb ⊢
+          rcases hb with hb | hb
+          · exact .inl hb
+          · right; simp at hb ⊢; omega) ha
+      cases s <;> simp_all
+    · simp [he, ha] at h
+
+theorem secretChar_eq (b : Nat) : secretChar b = (isAlnum b || secretByteExtra b) := by
+  rw [Bool.eq_iff_iff]
+  simp only [secretChar, alnum_eq, oneOf, bs, secretByteExtra, Bool.or_eq_true, beq_iff_eq]
+  simp [or_assoc]
+
+theorem struct_clientSecret {x : Ext} {s : Str} (h : clientSecretValidate x s = .ok ()) :
+    (!s.isEmpty && max255 s && asciiIn secretChar s) = true := by
+  unfold clientSecretValidate at h
+  by_cases hl : s.length > 255
+  · simp [hl] at h
+  · by_cases ha : allUniAlnumOr x secretByteExtra s = true
+    · by_cases he : s = []
+      · simp [he] at h
+      · have := asciiIn_of_allUniAlnumOr (set := secretChar)
+          (fun b hb => by rw [secretChar_eq]; exact hb) ha
+        have hm : max255 s = true := by simp [max255]; omega
+        cases s <;> simp_all
+    · simp [hl, ha] at h
+
+theorem struct_sessionId {s : Str} (h : sessionIdValidate s = .ok ()) :
+    (nonEmptyAll secretChar s && max255 s) = true := by
+  unfold sessionIdValidate at h
+  by_cases hl : s.length > 255
+  · rw [if_pos hl] at h; cases h
+  · rw [if_neg hl] at h
+    by_cases ha : s.any (fun b => !(isAlnum b || secretByteExtra b)) = true
+    · rw [if_pos ha] at h; cases h
+    · rw [if_neg ha] at h
+      by_cases he : s = []
+      · rw [if_pos he] at h; cases h
+      · have hm : max255 s = true := by simp [max255]; omega
+        rw [Bool.and_eq_true, nonEmptyAll_iff]
+        refine ⟨⟨he, ?_⟩, hm⟩
+        intro b hb
+        rw [secretChar_eq]
+        rw [Bool.not_eq_true, List.any_eq_false] at ha
+        have := ha b hb
+        cases h1 : isAlnum b <;> cases h2 : secretByteExtra b <;> simp_all
+
+theorem roomVersionChar_eq (b : Nat) : roomVersionChar b = (isAlnum b || b == 46 || b == 45) := by
+  rw [Bool.eq_iff_iff]
+  simp only [roomVersionChar, alnum_eq, oneOf, bs, Bool.or_eq_true, beq_iff_eq]
+  simp [or_assoc]
+
+theorem struct_roomVersion {s : Str} (h : roomVersionIdValidate s = .ok ()) :
+    (nonEmptyAll roomVersionChar s && decide (codePoints s ≤ 32)) = true := by
+  unfold roomVersionIdValidate at h
+  by_cases he : s = []
+  · simp [he] at h
+  · by_cases hc : charCount s > 32
+    · simp [he, hc] at h
+    · by_cases ha : s.all (fun b => isAlnum b || b == 46 || b == 45) = true
+      · rw [Bool.and_eq_true, nonEmptyAll_iff, codePoints_eq]
+        refine ⟨⟨he, ?_⟩, by simp; omega⟩
+        intro b hb
+        rw [roomVersionChar_eq]
+        exact List.all_eq_true.1 ha b hb
+      · simp [he, hc, ha] at h
+
 end Ruma.Ids
